@@ -119,7 +119,13 @@ def gen_spec_plain(rng, kind):
     if kind == "discrete":
         return dict(kind=kind, points=gen_points(rng, rng.randint(3, 9)))
     if kind == "linear":
-        return dict(kind=kind, points=gen_points(rng, rng.randint(3, 8)), equalize=rng.random() < 0.7)
+        pts = gen_points(rng, rng.randint(3, 8))
+        if rng.random() < 0.15:
+            # a point list put together from two pieces, with the joint in both (equalized: the doubled point has one parameter)
+            i = rng.randrange(1, len(pts) - 1)
+            pts.insert(i, list(pts[i]))
+            return dict(kind=kind, points=pts, equalize=True, doubled=True)
+        return dict(kind=kind, points=pts, equalize=rng.random() < 0.7)
     if kind == "spline":
         eq = rng.random() < 0.7
         return dict(kind=kind, points=gen_points(rng, rng.randint(4, 8), mild=not eq), equalize=eq)
